@@ -624,6 +624,11 @@ pub struct RefOutcome {
     pub calls: u64,
     pub loops: u64,
     pub heap_values: u64,
+    pub try_none: u64,
+    pub try_some: u64,
+    pub unwraps: u64,
+    pub closure_calls: u64,
+    pub stale_capture_calls: u64,
 }
 
 enum Stop {
@@ -676,6 +681,11 @@ pub struct Interp<'a> {
     pub loops: u64,
     pub heap_values: u64,
     pub max_ops: u64,
+    pub try_none: u64,
+    pub try_some: u64,
+    pub unwraps: u64,
+    pub closure_calls: u64,
+    pub stale_capture_calls: u64,
     funcs: HashMap<&'a str, &'a FuncDef>,
     depth: usize,
 }
@@ -730,7 +740,7 @@ impl<'a> Interp<'a> {
         for f in &p.funcs {
             funcs.insert(f.name.as_str(), f);
         }
-        Interp { p, out: String::new(), ops: 0, calls: 0, loops: 0, heap_values: 0, max_ops: 300_000, funcs, depth: 0 }
+        Interp { p, out: String::new(), ops: 0, calls: 0, loops: 0, heap_values: 0, max_ops: 300_000, try_none: 0, try_some: 0, unwraps: 0, closure_calls: 0, stale_capture_calls: 0, funcs, depth: 0 }
     }
 
     fn tick(&mut self) -> R<()> {
@@ -934,7 +944,19 @@ impl<'a> Interp<'a> {
                     vs.push(self.eval(a, env)?);
                 }
                 match env.get(name) {
-                    Some(V::Clo(c)) => self.call_closure(&c, vs),
+                    Some(V::Clo(c)) => {
+                        self.closure_calls += 1;
+                        let stale = c.env.iter().any(|(n, v)| match (env.get(n), v) {
+                            (Some(V::Int(a)), V::Int(b)) => a != *b,
+                            (Some(V::Bool(a)), V::Bool(b)) => a != *b,
+                            (Some(V::Str(a)), V::Str(b)) => a != *b,
+                            _ => false,
+                        });
+                        if stale {
+                            self.stale_capture_calls += 1;
+                        }
+                        self.call_closure(&c, vs)
+                    }
                     other => panic!("reference interpreter: {name} is not a closure: {other:?}"),
                 }
             }
@@ -1000,13 +1022,22 @@ impl<'a> Interp<'a> {
             }
             E::None(_) => Ok(V::Opt(None)),
             E::Unwrap(a) => match self.eval(a, env)? {
-                V::Opt(Some(x)) => Ok((*x).clone()),
+                V::Opt(Some(x)) => {
+                    self.unwraps += 1;
+                    Ok((*x).clone())
+                }
                 V::Opt(None) => Err(Stop::Err(RefErr::Panic)),
                 other => panic!("reference interpreter: unwrap of {other:?}"),
             },
             E::Try(a) => match self.eval(a, env)? {
-                V::Opt(Some(x)) => Ok((*x).clone()),
-                V::Opt(None) => Err(Stop::Return(V::Opt(None))),
+                V::Opt(Some(x)) => {
+                    self.try_some += 1;
+                    Ok((*x).clone())
+                }
+                V::Opt(None) => {
+                    self.try_none += 1;
+                    Err(Stop::Return(V::Opt(None)))
+                }
                 other => panic!("reference interpreter: try of {other:?}"),
             },
             E::Lam(ps, body) => {
@@ -1246,5 +1277,5 @@ pub fn run_reference(p: &Prog) -> RefOutcome {
         Err(Stop::Unspec(s)) => (RefEnd::Unspecified(s), None),
         Err(Stop::Break) | Err(Stop::Continue) => panic!("reference interpreter: break/continue escaped a loop"),
     };
-    RefOutcome { printed: it.out, final_value: fv, end, ops: it.ops, calls: it.calls, loops: it.loops, heap_values: it.heap_values }
+    RefOutcome { printed: it.out, final_value: fv, end, ops: it.ops, calls: it.calls, loops: it.loops, heap_values: it.heap_values, try_none: it.try_none, try_some: it.try_some, unwraps: it.unwraps, closure_calls: it.closure_calls, stale_capture_calls: it.stale_capture_calls }
 }
